@@ -45,7 +45,12 @@ def _case(draw, wide):
     c = draw(gen.log_uniform(-3, 3)) * draw(st.sampled_from([1.0, -1.0]))
     a = draw(gen.vec3(-3, 3))
     b = draw(gen.vec3(-3, 3))
-    return {"P": P, "Q": Q, "w": w, "c": c, "a": a, "b": b}
+    return {"P": P, "Q": Q, "w": w, "c": c, "a": a, "b": b,
+            # how arguments are handed over: fresh arrays, or views into a work buffer that is overwritten between calls
+            "call": draw(st.sampled_from(["fresh", "fresh", "buffer"])),
+            # integer-valued quaternion / vector passed as integer-typed arrays (e.g. np.array([0, 0, 0, 1]))
+            "Pi": draw(st.lists(st.integers(-3, 3), min_size=4, max_size=4).filter(lambda v: any(v))),
+            "ai": draw(st.lists(st.integers(-3, 3), min_size=3, max_size=3))}
 
 
 def strategy(tier):
@@ -88,7 +93,10 @@ def _mp_R(P):
 
 
 def check(spec):
-    from cardillo.math import rotations as rot
+    from cardillo.math import rotations as _rot
+    from harness.callconv import Proxy
+
+    rot = Proxy(_rot, spec.get("call", "fresh"))
     from cardillo.math import algebra as alg
 
     res = Result()
@@ -142,18 +150,25 @@ def check(spec):
         expect("quaternion_length_constant", "T_SO3_inv_quat", abs(P @ P_dot), nP * np.linalg.norm(P_dot) + 1e-300)
         expect("tangent_recovers_rate", "T_SO3_quat", np.max(np.abs(T @ P_dot - w)), nw)
 
-    # partial derivatives (normalising variant anywhere; unnormalised at unit length)
-    h = 1e-3 * nP
-    for name, fun, dfun in (
+    # partial derivatives (normalising variant anywhere; unnormalised at unit length), at P and then at Q: consecutive
+    # evaluations at different quaternions, as a Newton iteration or an in-place updated work buffer produces them
+    # (all normalising evaluations first, then all un-normalising ones, so that consecutive calls share their flags)
+    triples = (
         ("Exp_SO3_quat_P", rot.Exp_SO3_quat, rot.Exp_SO3_quat_P),
         ("T_SO3_quat_P", rot.T_SO3_quat, rot.T_SO3_quat_P),
         ("T_SO3_inv_quat_P", rot.T_SO3_inv_quat, rot.T_SO3_inv_quat_P),
-    ):
-        num, dis = jacobian(lambda x: fun(x), P, h)
-        compare(res, "partial_derivative", name, dfun(P), num, dis, feats, tol=1e-6, relative=True)
-        num, dis = jacobian(lambda x: fun(x, normalize=False), U, 1e-3)
-        compare(res, "partial_derivative", name + "(normalize=False,|P|=1)", dfun(U, normalize=False), num, dis,
-                feats, tol=1e-6, relative=True)
+    )
+    for name, fun, dfun in triples:
+        for X in (P, Q):
+            num, dis = jacobian(lambda x: fun(x), X, 1e-3 * float(np.linalg.norm(X)))
+            compare(res, "partial_derivative", name, dfun(X), num, dis, feats, tol=1e-6, relative=True)
+    for name, fun, dfun in triples:
+        for X in (P, Q):
+            UX = X / float(np.linalg.norm(X))
+            UX = UX / np.linalg.norm(UX)
+            num, dis = jacobian(lambda x: fun(x, normalize=False), UX, 1e-3)
+            compare(res, "partial_derivative", name + "(normalize=False,|P|=1)", dfun(UX, normalize=False), num, dis,
+                    feats, tol=1e-6, relative=True)
 
     # vector algebra
     sab = float(np.linalg.norm(a) * np.linalg.norm(b))
@@ -167,6 +182,22 @@ def check(spec):
     expect("algebra", "skew2ax_A", np.max(np.abs(np.einsum("ijk,jk->i", alg.skew2ax_A(), M) - alg.skew2ax(M))), sab + 1e-300)
     # cross product against numpy
     expect("algebra", "cross3", np.max(np.abs(alg.cross3(a, b) - np.cross(a, b))), sab + 1e-300)
+
+    # integer-typed arguments denote the same quaternions / vectors as their float copies (routines that accept them:
+    # Exp_SO3_quat / T_SO3_quat divide in place and reject integer arrays with a TypeError, which is not a wrong value)
+    if "Pi" in spec:
+        Pi, ai = np.array(spec["Pi"]), np.array(spec["ai"])
+        Pf, af = Pi.astype(float), ai.astype(float)
+        for nm, got, want in (
+            ("quatprod(int,float)", rot.quatprod(Pi, Q), rot.quatprod(Pf, Q)),
+            ("quatprod(float,int)", rot.quatprod(Q, Pi), rot.quatprod(Q, Pf)),
+            ("cross3(int,float)", alg.cross3(ai, b), np.cross(af, b)),
+            ("cross3(float,int)", alg.cross3(b, ai), np.cross(b, af)),
+            ("ax2skew(int)@float", alg.ax2skew(ai) @ b, np.cross(af, b)),
+        ):
+            got, want = np.asarray(got, dtype=float), np.asarray(want, dtype=float)
+            expect("integer_typed_argument", nm, float(np.max(np.abs(got - want))), 1.0 + float(np.max(np.abs(want))))
+    res.label("call:" + spec.get("call", "fresh"))
 
     nz = int(np.sum(np.abs(P[1:]) > 0))
     res.nontrivial = abs(nP - 1.0) > 1e-3 and nz >= 2
